@@ -42,14 +42,25 @@ func (c *sortCase) script() string {
 	switch c.Cmp {
 	case "throw":
 		cmp = cmpJS["revstr"]
-	case "notfn":
+	case "notfn", "omitted", "void", "undefined":
 		cmp = "undefined"
 	}
 	fmt.Fprintf(&b, "var CMP=%s;var before=__D(R),setup=__log;__log='';var same='',err='';try{same=String(", cmp)
+	arg := "CMP" // "default": the comparefn argument is passed explicitly and is undefined (a variable holding undefined)
+	switch c.Cmp {
+	case "omitted":
+		arg = ""
+	case "void":
+		arg = "void 0"
+	case "undefined":
+		arg = "undefined"
+	}
 	if c.Recv.Kind == "array" {
-		b.WriteString("R.sort(CMP)===R")
+		b.WriteString("R.sort(" + arg + ")===R")
+	} else if arg == "" {
+		b.WriteString("Array.prototype.sort.call(R)===R")
 	} else {
-		b.WriteString("Array.prototype.sort.call(R,CMP)===R")
+		b.WriteString("Array.prototype.sort.call(R," + arg + ")===R")
 	}
 	b.WriteString(")}catch(e){err=__E(e)}")
 	b.WriteString(joinSections("before", "setup", "same", "err", "__bad", "String(__calls)", "__D(R)"))
@@ -73,7 +84,7 @@ func parseDump(d string) (props map[string]string, tail string) {
 
 func checkSort(c sortCase) harness.Outcome {
 	w := c.Env.build()
-	o := harness.Outcome{Nontrivial: c.Env.restricted() || c.Cmp != "default", Classes: []string{"cmp:" + c.Cmp, "recv:" + c.Recv.Kind}}
+	o := harness.Outcome{Nontrivial: c.Env.restricted() || c.Cmp != "omitted", Classes: []string{"cmp:" + c.Cmp, "recv:" + c.Recv.Kind}}
 	before := m08.Dump(w.recv)
 	var length float64
 	tooLong := false
@@ -242,7 +253,7 @@ func compareModel(m *m08.Machine, cmp string, a, b m08.Value) int {
 		return 0
 	}
 	switch cmp {
-	case "default", "notfn", "frac", "big", "inf":
+	case "default", "notfn", "frac", "big", "inf", "omitted", "void", "undefined":
 		return three(sa, sb)
 	case "revstr", "throw":
 		return -three(sa, sb)
@@ -254,12 +265,12 @@ func compareModel(m *m08.Machine, cmp string, a, b m08.Value) int {
 
 var sortFacet = harness.Register(&harness.Facet[sortCase]{
 	Name:     "sort",
-	Rule:     "rapid: receiver = array or array-like of ≤ 8 pool values (numbers incl. -0/NaN, strings, booleans, null, undefined, tagged objects) and holes, no inherited indices and no restricted attributes (15.4.4.11 makes those implementation-defined), length exact/nearby/odd; comparator ∈ {omitted, reverse string order, typeof+string order, constant 0, fractional results ±0.25, huge results -1e300/1e19/-0, results ±Infinity, throwing at the k-th comparison}; validity predicate: returns the receiver, comparefn only sees defined values, result is a permutation (by identity and SameValue) with defined values first in comparator order, then undefined, then holes; properties outside [0,len) untouched; non-trivial = holes/odd length or a comparator is given; distinct by the whole case",
+	Rule:     "rapid: receiver = array or array-like of ≤ 8 pool values (numbers incl. -0/NaN, strings, booleans, null, undefined, tagged objects) and holes, no inherited indices and no restricted attributes (15.4.4.11 makes those implementation-defined), length exact/nearby/odd; comparator ∈ {omitted, explicitly undefined (variable / `undefined` / `void 0`), reverse string order, typeof+string order, constant 0, fractional results ±0.25, huge results -1e300/1e19/-0, results ±Infinity, throwing at the k-th comparison}; validity predicate: returns the receiver, comparefn only sees defined values, result is a permutation (by identity and SameValue) with defined values first in comparator order, then undefined, then holes; properties outside [0,len) untouched; non-trivial = holes/odd length or a comparator is given; distinct by the whole case",
 	Quick:    4000,
 	Thorough: 20000,
 	Gen: func(t *rapid.T) sortCase {
 		c := sortCase{Env: genEnv(t, true)}
-		cmps := []string{"default", "default", "revstr", "typestr", "zero", "frac", "big", "inf", "throw"}
+		cmps := []string{"default", "omitted", "void", "undefined", "revstr", "typestr", "zero", "frac", "big", "inf", "throw"}
 		c.Cmp = cmps[pickUniform(t, "cmp", len(cmps))]
 		if c.Cmp == "throw" {
 			c.ThrowAt = rapid.IntRange(0, 6).Draw(t, "throwAt")
@@ -270,3 +281,22 @@ var sortFacet = harness.Register(&harness.Facet[sortCase]{
 })
 
 func TestSort(t *testing.T) { sortFacet.Run(t) }
+
+var sortOptionalFacet = harness.Register(&harness.Facet[sortCase]{
+	Name:  "optional-arguments-sort",
+	Rule:  "complete product: sort with comparefn omitted / passed as `undefined` / `void 0` / a variable holding undefined × the four receivers of optional-arguments; same validity predicate as the sort facet (default string order in every spelling)",
+	Check: checkSort,
+})
+
+func TestOptionalArgumentsSort(t *testing.T) {
+	var cases []sortCase
+	for _, recv := range optionalReceivers() {
+		for _, cmp := range []string{"omitted", "undefined", "void", "default"} {
+			c := sortCase{Cmp: cmp}
+			c.Env = Env{VNums: []string{"1", "2", "3"}, TStrs: []string{"1", "2"}, Recv: recv, Xs: [][]Val{{}, {}}}
+			cases = append(cases, c)
+		}
+	}
+	harness.SetExhaustive(sortOptionalFacet.Name)
+	sortOptionalFacet.Each(t, cases)
+}
